@@ -136,6 +136,9 @@ func areaArea(context *api.Context, area b6.Area) (float64, error) {
 
 // Return a rectangle polygon with the given top left and bottom right points.
 func rectanglePolygon(context *api.Context, a b6.Geometry, b b6.Geometry) (b6.Area, error) {
+	if a == nil || b == nil {
+		return nil, fmt.Errorf("expected two points, found nothing")
+	}
 	r := s2.EmptyRect().AddPoint(s2.LatLngFromPoint(a.Point())).AddPoint(s2.LatLngFromPoint(b.Point()))
 	points := make([]s2.Point, 4)
 	for i := range points {
